@@ -64,6 +64,15 @@ type guardSite struct {
 	// Updates: for each of these local variables, every assignment to it in source order as
 	// (keep, delta): `x = e` is (0, e), `x += e` is (1, e), `x++` is (1, 1) — the new value is keep*old + delta
 	Updates []string
+	// DefBySel: a local defined OR assigned as the first result of a call of a method with this name
+	// (`n, err := fl.Unpack(rest)`, `read, err = m.fields[i].Unpack(..)`) stands for this Lean parameter
+	DefBySel map[string]string
+	// FirstInt: the first local of the function body that is defined as an integer (`var off int`,
+	// `offset := 0`) is read under this name (the running offset, whatever the source calls it)
+	FirstInt string
+	// LenVers: a []byte parameter / local that the function re-assigns (`value = pad(value, n)`): its
+	// length is the Lean parameter <base>0 before the first re-assignment, <base>1 after it, …
+	LenVers map[string]string
 	// OnlyRets: write only the `_returns` / `_args` definitions (the site's conditions are written elsewhere)
 	OnlyRets bool
 }
@@ -99,6 +108,7 @@ type guardTr struct {
 	rets     []retCase             // Rets: condition of a success return -> rendered results
 	args     map[string][]retCase  // Args: callee -> (path condition, rendered arguments) per call
 	entry    []string              // per scope: the condition under which it is entered ("" = the scope of the function body, "<opaque>" = a loop / switch body)
+	lenVer   map[string]int        // LenVers: re-assignments seen so far
 	next     string                // the entry condition of the scope the next walk() opens
 	cases    []valueCase // Boolean functions: condition -> returned literal, in source order
 	deflt    string      // Boolean functions: the final return
@@ -201,6 +211,23 @@ func (tr *guardTr) intExpr(e ast.Expr) (string, bool) {
 			return "(-" + a + ")", ok
 		}
 	case *ast.CallExpr:
+		if id, ok := x.Fun.(*ast.Ident); ok && id.Name == "len" && len(x.Args) == 1 {
+			if a, ok := x.Args[0].(*ast.Ident); ok {
+				if _, ok := tr.site.LenVers[a.Name]; ok {
+					if v, ok := tr.lookup("len(" + a.Name + ")"); ok {
+						return v, true
+					}
+				}
+			}
+		}
+		if fn := tr.text(x.Fun); len(x.Args) == 1 && (fn == "bcd.EncodedLen" || fn == "hex.EncodedLen") {
+			if a, ok := tr.intExpr(x.Args[0]); ok {
+				if fn == "bcd.EncodedLen" {
+					return "((" + a + " + 1) / 2)", true
+				}
+				return "(" + a + " * 2)", true
+			}
+		}
 		// conversions between integer types (no wrap-around is modelled: see DESIGN §6)
 		if id, ok := x.Fun.(*ast.Ident); ok && len(x.Args) == 1 {
 			switch id.Name {
@@ -253,6 +280,10 @@ func (tr *guardTr) cond(e ast.Expr) (lean string, ok bool, errCheck bool) {
 		if x.Op == token.NOT {
 			a, ok, ec := tr.cond(x.X)
 			return "(!" + a + ")", ok, ec
+		}
+	case *ast.CallExpr:
+		if v, ok := tr.inlineBoolHelper(x); ok {
+			return v, true, false
 		}
 	case *ast.BinaryExpr:
 		switch x.Op {
@@ -343,6 +374,38 @@ func (tr *guardTr) assign(lhs []ast.Expr, rhs []ast.Expr, define bool) {
 			}
 		}
 	}
+	if len(rhs) == 1 && len(lhs) >= 1 && len(tr.site.DefBySel) > 0 {
+		if call, ok := rhs[0].(*ast.CallExpr); ok {
+			if sel, ok := call.Fun.(*ast.SelectorExpr); ok {
+				if lean, ok := tr.site.DefBySel[sel.Sel.Name]; ok {
+					if id, ok := lhs[0].(*ast.Ident); ok && id.Name != "_" {
+						if _, declared := tr.site.Map[id.Name]; !declared && !tr.isTracked(id.Name) {
+							if define {
+								tr.scopes[len(tr.scopes)-1][id.Name] = lean
+							} else {
+								set := false
+								for i := len(tr.scopes) - 1; i >= 0 && !set; i-- {
+									if _, ok := tr.scopes[i][id.Name]; ok {
+										tr.scopes[i][id.Name] = lean
+										set = true
+									}
+								}
+								if !set {
+									tr.scopes[0][id.Name] = lean
+								}
+							}
+							for _, l := range lhs[1:] {
+								if id2, ok := l.(*ast.Ident); ok && id2.Name != "_" && define {
+									tr.scopes[len(tr.scopes)-1][id2.Name] = ""
+								}
+							}
+							return
+						}
+					}
+				}
+			}
+		}
+	}
 	if define && len(rhs) == 1 && len(lhs) >= 1 && len(tr.site.DefAll) > 0 {
 		if call, ok := rhs[0].(*ast.CallExpr); ok {
 			if names, ok := tr.site.DefAll[tr.text(call.Fun)]; ok {
@@ -380,7 +443,16 @@ func (tr *guardTr) assign(lhs []ast.Expr, rhs []ast.Expr, define bool) {
 				return // a declared parameter stands for the value it has where the conditions read it
 			}
 			if !define {
-				tr.setOpaque(id.Name) // re-assignment: no longer one definition
+				// re-assignment `x = e` of an inlined local: e (read with the old value of x) is its new value
+				if _, inl := tr.lookup(id.Name); inl {
+					save := tr.unknown
+					if v, ok := tr.intExpr(rhs[0]); ok {
+						tr.updateWith(id.Name, func(string) string { return v })
+						return
+					}
+					tr.unknown = save
+				}
+				tr.setOpaque(id.Name)
 				return
 			}
 			save := tr.unknown
@@ -410,6 +482,10 @@ func (tr *guardTr) assign(lhs []ast.Expr, rhs []ast.Expr, define bool) {
 // `old + d`; in a scope entered under condition c (an `if` body) it is `if c then old + d else old`
 // for the code after that `if`; inside a loop or a switch the name becomes opaque.
 func (tr *guardTr) update(name, delta string) {
+	tr.updateWith(name, func(old string) string { return "(" + old + delta + ")" })
+}
+
+func (tr *guardTr) updateWith(name string, next func(old string) string) {
 	if _, declared := tr.site.Map[name]; declared {
 		return
 	}
@@ -423,6 +499,9 @@ func (tr *guardTr) update(name, delta string) {
 		}
 		c := ""
 		for j := i + 1; j < len(tr.scopes); j++ {
+			if j < len(tr.entry) && tr.entry[j] == "<body>" {
+				continue // the function body itself: entered unconditionally
+			}
 			if j >= len(tr.entry) || tr.entry[j] == "<opaque>" || tr.entry[j] == "" {
 				tr.scopes[i][name] = ""
 				return
@@ -430,18 +509,72 @@ func (tr *guardTr) update(name, delta string) {
 			c = conj(c, tr.entry[j])
 		}
 		if c == "" {
-			tr.scopes[i][name] = "(" + old + delta + ")"
+			tr.scopes[i][name] = next(old)
 		} else {
 			// inside the branch the name reads as the new value, after it as the conditional one
-			tr.scopes[len(tr.scopes)-1][name] = "(" + old + delta + ")"
-			tr.scopes[i][name] = "(if " + c + " then (" + old + delta + ") else " + old + ")"
+			tr.scopes[len(tr.scopes)-1][name] = next(old)
+			tr.scopes[i][name] = "(if " + c + " then " + next(old) + " else " + old + ")"
 		}
 		return
 	}
 	tr.setOpaque(name)
 }
 
+func (tr *guardTr) canon(name string) string {
+	if n, ok := tr.rename[name]; ok {
+		return n
+	}
+	return name
+}
+
+// firstIntLocal: the first local of the body defined as an integer (`var x int`, `x := 0`)
+func firstIntLocal(body *ast.BlockStmt) string {
+	for _, st := range body.List {
+		switch s := st.(type) {
+		case *ast.DeclStmt:
+			if gd, ok := s.Decl.(*ast.GenDecl); ok && gd.Tok == token.VAR {
+				for _, sp := range gd.Specs {
+					if vs, ok := sp.(*ast.ValueSpec); ok && len(vs.Names) == 1 {
+						if t, ok := vs.Type.(*ast.Ident); ok && t.Name == "int" {
+							return vs.Names[0].Name
+						}
+						if len(vs.Values) == 1 {
+							if bl, ok := vs.Values[0].(*ast.BasicLit); ok && bl.Kind == token.INT {
+								return vs.Names[0].Name
+							}
+						}
+					}
+				}
+			}
+		case *ast.AssignStmt:
+			if s.Tok == token.DEFINE && len(s.Lhs) == 1 && len(s.Rhs) == 1 {
+				if bl, ok := s.Rhs[0].(*ast.BasicLit); ok && bl.Kind == token.INT {
+					if id, ok := s.Lhs[0].(*ast.Ident); ok {
+						return id.Name
+					}
+				}
+			}
+		}
+	}
+	return ""
+}
+
+func (tr *guardTr) isTracked(name string) bool {
+	if n, ok := tr.rename[name]; ok {
+		name = n
+	}
+	for _, u := range tr.site.Updates {
+		if u == name {
+			return true
+		}
+	}
+	return false
+}
+
 func (tr *guardTr) tracked(name string) bool {
+	if n, ok := tr.rename[name]; ok {
+		name = n
+	}
 	for _, u := range tr.site.Updates {
 		if u == name {
 			if tr.updates == nil {
@@ -468,24 +601,24 @@ func (tr *guardTr) recordUpdate(s *ast.AssignStmt) {
 		if len(s.Lhs) != len(s.Rhs) {
 			// `x, err = f()`: the value comes from a call
 			if s.Tok == token.DEFINE {
-				tr.inits[id.Name] = append(tr.inits[id.Name], "untranslated_call_result")
+				tr.inits[tr.canon(id.Name)] = append(tr.inits[tr.canon(id.Name)], "untranslated_call_result")
 			} else {
-				tr.updates[id.Name] = append(tr.updates[id.Name], "(0, untranslated_call_result)")
+				tr.updates[tr.canon(id.Name)] = append(tr.updates[tr.canon(id.Name)], "(0, untranslated_call_result)")
 			}
 			continue
 		}
 		v, _ := tr.intExpr(s.Rhs[i])
 		switch s.Tok {
 		case token.DEFINE:
-			tr.inits[id.Name] = append(tr.inits[id.Name], v)
+			tr.inits[tr.canon(id.Name)] = append(tr.inits[tr.canon(id.Name)], v)
 		case token.ASSIGN:
-			tr.updates[id.Name] = append(tr.updates[id.Name], "(0, "+v+")")
+			tr.updates[tr.canon(id.Name)] = append(tr.updates[tr.canon(id.Name)], "(0, "+v+")")
 		case token.ADD_ASSIGN:
-			tr.updates[id.Name] = append(tr.updates[id.Name], "(1, "+v+")")
+			tr.updates[tr.canon(id.Name)] = append(tr.updates[tr.canon(id.Name)], "(1, "+v+")")
 		case token.SUB_ASSIGN:
-			tr.updates[id.Name] = append(tr.updates[id.Name], "(1, (-"+v+"))")
+			tr.updates[tr.canon(id.Name)] = append(tr.updates[tr.canon(id.Name)], "(1, (-"+v+"))")
 		default:
-			tr.updates[id.Name] = append(tr.updates[id.Name], "(0, untranslated_assignment)")
+			tr.updates[tr.canon(id.Name)] = append(tr.updates[tr.canon(id.Name)], "(0, untranslated_assignment)")
 		}
 	}
 }
@@ -581,6 +714,17 @@ func (tr *guardTr) walk(b *ast.BlockStmt, path string, top bool) {
 				tr.callArgs(r, path)
 			}
 			tr.recordUpdate(s)
+			if s.Tok == token.ASSIGN {
+				for _, l := range s.Lhs {
+					if id, ok := l.(*ast.Ident); ok {
+						if base, ok := tr.site.LenVers[id.Name]; ok {
+							tr.lenVer[id.Name]++
+							nv := base + strconv.Itoa(tr.lenVer[id.Name])
+							tr.updateWith("len("+id.Name+")", func(string) string { return nv })
+						}
+					}
+				}
+			}
 			if (s.Tok == token.ADD_ASSIGN || s.Tok == token.SUB_ASSIGN) && len(s.Lhs) == 1 && len(s.Rhs) == 1 {
 				op := " + "
 				if s.Tok == token.SUB_ASSIGN {
@@ -607,7 +751,7 @@ func (tr *guardTr) walk(b *ast.BlockStmt, path string, top bool) {
 					if s.Tok == token.DEC {
 						d = "(-1)"
 					}
-					tr.updates[id.Name] = append(tr.updates[id.Name], "(1, "+d+")")
+					tr.updates[tr.canon(id.Name)] = append(tr.updates[tr.canon(id.Name)], "(1, "+d+")")
 				}
 				if s.Tok == token.INC {
 					tr.update(id.Name, " + 1")
@@ -625,7 +769,7 @@ func (tr *guardTr) walk(b *ast.BlockStmt, path string, top bool) {
 								if i < len(vs.Values) {
 									v, _ = tr.intExpr(vs.Values[i])
 								}
-								tr.inits[n.Name] = append(tr.inits[n.Name], v)
+								tr.inits[tr.canon(n.Name)] = append(tr.inits[tr.canon(n.Name)], v)
 							}
 						}
 					}
@@ -813,6 +957,64 @@ func (tr *guardTr) inlineHelper(call *ast.CallExpr, path string) bool {
 	return true
 }
 
+// inlineBoolHelper: a call of an unexported function of the same file whose body is one
+// `return <Boolean expression over its integer parameters>`
+func (tr *guardTr) inlineBoolHelper(call *ast.CallExpr) (string, bool) {
+	id, ok := call.Fun.(*ast.Ident)
+	if !ok || tr.file == nil || tr.inlining > 2 {
+		return "", false
+	}
+	var fd *ast.FuncDecl
+	for _, d := range tr.file.Decls {
+		if f, ok := d.(*ast.FuncDecl); ok && f.Recv == nil && f.Name.Name == id.Name && f.Body != nil {
+			fd = f
+		}
+	}
+	if fd == nil || fd.Type.Results == nil || len(fd.Type.Results.List) != 1 || len(fd.Body.List) != 1 {
+		return "", false
+	}
+	if rid, ok := fd.Type.Results.List[0].Type.(*ast.Ident); !ok || rid.Name != "bool" {
+		return "", false
+	}
+	rs, ok := fd.Body.List[0].(*ast.ReturnStmt)
+	if !ok || len(rs.Results) != 1 {
+		return "", false
+	}
+	var names []string
+	for _, fl := range fd.Type.Params.List {
+		for _, n := range fl.Names {
+			names = append(names, n.Name)
+		}
+	}
+	if len(names) != len(call.Args) {
+		return "", false
+	}
+	scope := map[string]string{}
+	for i, a := range call.Args {
+		save := tr.unknown
+		v, ok := tr.intExpr(a)
+		if !ok {
+			tr.unknown = save
+			return "", false
+		}
+		scope[names[i]] = v
+	}
+	savedScopes, savedRename, savedSite := tr.scopes, tr.rename, tr.site
+	bare := *tr.site
+	bare.Map = map[string]string{}
+	tr.scopes, tr.rename, tr.site = []map[string]string{scope}, map[string]string{}, &bare
+	tr.inlining++
+	save := tr.unknown
+	v, ok, _ := tr.cond(rs.Results[0])
+	tr.inlining--
+	tr.scopes, tr.rename, tr.site = savedScopes, savedRename, savedSite
+	if !ok {
+		tr.unknown = save
+		return "", false
+	}
+	return v, true
+}
+
 func isBoolLit(e ast.Expr) bool {
 	id, ok := e.(*ast.Ident)
 	return ok && (id.Name == "true" || id.Name == "false")
@@ -928,6 +1130,21 @@ func genGuardFile(file string, sites []guardSite) {
 					tr.boolFunc = true
 				}
 			}
+		}
+		if s.FirstInt != "" {
+			if n := firstIntLocal(fd.Body); n != "" && n != s.FirstInt {
+				tr.rename[n] = s.FirstInt
+			}
+		}
+		tr.lenVer = map[string]int{}
+		if len(s.LenVers) > 0 {
+			// the lengths live in a scope of their own around the function body
+			tr.scopes = append(tr.scopes, map[string]string{})
+			tr.entry = append(tr.entry, "")
+			for v, base := range s.LenVers {
+				tr.scopes[0]["len("+v+")"] = base + "0"
+			}
+			tr.next = "<body>"
 		}
 		tr.walk(fd.Body, "", true)
 		if s.Arith {
